@@ -129,7 +129,10 @@ def parseRsMem (s : String) : Option (Mem RsLeaf) :=
   if s.startsWith "4." ∨ s.startsWith "6." then do
     let (p, op) ← parseMemberTok s
     pure (.leaf (.pfx p op))
-  else match stripPrefix? "a" s with
+  else match stripPrefix? "j" s with
+  | some r => if isNat r then r.toNat?.map (fun k => .leaf (.junk k)) else some (.set s)
+  | none =>
+  match stripPrefix? "a" s with
     | some r => if isNat r then r.toNat?.map (fun a => .leaf (.asn a)) else some (.set s)
     | none => if s == "" then none else some (.set s)
 
@@ -286,8 +289,16 @@ def showFlat (first : Nat × Expr) (rest : List (BinOp × Nat × Expr)) : String
   item first ++ String.join (rest.map fun (op, x) =>
     (match op with | .and => " AND " | .or => " OR ") ++ item x)
 
+/-- member words that are no address prefix with a range operator: plain garbage, near misses, and
+words that would be a filter expression of their own once wrapped in braces (TAB is not a separator
+of the query protocol, so it stays inside one word) -/
+def junkWords : List String :=
+  ["not-a-prefix", "10.0.0.0/8^", "10.0.0.0/33", "}<AS65000>{", "}\tOR\tANY\tOR\t{", "10.0.0.0/8}\tAND\t<AS65000>\tAND\t{10.0.0.0/8",
+   "AS-FOO", "}\tOR\tPeerAS\tOR\t{", "2001:db8::/32^+x", "10.0.0.0/8,11.0.0.0/8"]
+
 def showItem (name : String) : Item → String
   | .asn a => s!"AS{a}"
+  | .junk k => junkWords.getD (k % junkWords.length) "x"
   | .member p op => showPfx p ++ showOp op
   | .obj o =>
     -- all attributes RFC 2622 makes mandatory (the rpsl crate rejects objects lacking one of them)
